@@ -486,4 +486,13 @@ inside a loop body uses the loop's own variables or an outer variable assigned i
 waiter in the drain that would then watch only the last subscription. -/
 theorem c20_no_loop_variable_captured : FV.Generated.Locks.loopShares = [] := by decide
 
+/-- **Fields are written under their lock** (regenerated from lib/go on every check): no method writes a field
+of a mutex-holding struct (the NATS server's stop flag and send state) while no mutex of that struct is write-held — by assignment, `++`, `delete` or an
+atomic store — unless the site is one of the hand-classified set-up / single-owner sites of
+`known/locks_unguarded_expected.txt`. The atomic-step models read and write such state in ONE critical section;
+a value computed from a read under the lock and stored after it was released (a lazily filled cache) is a lost
+update the models cannot exhibit and the race detector does not see. -/
+theorem c20_fields_written_under_lock :
+    FV.Locks.writesGuarded [6] FV.Generated.Locks.unguardedUnexpected = true := by decide +kernel
+
 end FV.C20
